@@ -768,6 +768,26 @@ def tie(ctx):
         if "case" in rp:
             corpus.append(rp["case"])
 
+    secs = [f(ctx, fixed, corpus) for f in (_sec0, _sec1, _sec2, _sec3, _sec4, _sec5)]
+    all_lines, spans = [], []
+    for g in secs:
+        try:
+            lines = next(g)
+        except StopIteration:  # the section gave up before asking the model anything
+            lines = []
+        spans.append((len(all_lines), len(lines)))
+        all_lines += lines
+    reps = ctx.driver(DRIVER, all_lines)  # one driver run for all sections
+    for g, (a0, n0) in zip(secs, spans):
+        try:
+            g.send(reps[a0:a0 + n0])
+        except StopIteration:
+            pass
+
+
+def _sec0(ctx, fixed, corpus):
+    import c19_ssa as S
+    rng = ctx.rng
     # ---- (1) fixed probes vs model emission
     emit_reqs = {
         "getitem_classical": "(emit getitem 0)", "getitem_classical_fixed": "(emit getitem 0)",
@@ -776,7 +796,7 @@ def tie(ctx):
     }
     names = list(emit_reqs)
     extra_reqs = ["(emit discard 0)", "(emit discard 1)", "(emit compbody)"]
-    replies = ctx.driver(DRIVER, [emit_reqs[k] for k in names] + extra_reqs)
+    replies = yield [emit_reqs[k] for k in names] + extra_reqs
     model_emit = dict(zip(names, replies))
     for k in names:
         real = _sexp(fixed[k])
@@ -815,6 +835,10 @@ def tie(ctx):
     if fixed["comp#outer"] is None or ("new_all_borrowed", ("4",)) not in fixed["comp#outer"] or ("const", ("0",)) not in fixed["comp#outer"]:
         ctx.broke(f"T-obj: comprehension does not start from new_all_borrowed(4) and counter 0: {fixed['comp#outer']}")
 
+
+def _sec1(ctx, fixed, corpus):
+    import c19_ssa as S
+    rng = ctx.rng
     # ---- (2) unpack shapes
     shapes = []
     maxn = 4 if ctx.quick else 7
@@ -864,7 +888,7 @@ def tie(ctx):
             reqs.append(f"(run {_sexp(prog)} ((arr {' '.join(map(str, xs))})))")
         else:
             reqs.append("(emit copy)")
-    reps = ctx.driver(DRIVER, reqs)
+    reps = yield reqs
     for k, (sh, kind, prog, src, err) in enumerate(up_cases):
         l, r, starred, nlen = sh
         model, lean_run = reps[2 * k], reps[2 * k + 1]
@@ -891,6 +915,10 @@ def tie(ctx):
         if lean_run != show_result(got):
             ctx.broke(f"Lean interpreter and Python interpreter disagree on the extracted unpack op list {sh}: {lean_run} vs {show_result(got)}")
 
+
+def _sec2(ctx, fixed, corpus):
+    import c19_ssa as S
+    rng = ctx.rng
     # ---- (3) single ops and op sequences through the extracted getitem/setitem op lists
     nseq = ctx.n(400, 40000)
     reqs, metas = [], []
@@ -930,7 +958,7 @@ def tie(ctx):
             lines.append(f"(getitem {int(linear)} {cells_sexp(cells)} {i})")
         else:
             lines.append(f"(setitem {int(linear)} {cells_sexp(cells)} {i} {v})")
-    reps = ctx.driver(DRIVER, lines)
+    reps = yield lines
     for (k, linear, cells, i, v), line, model in zip(reqs, lines, reps):
         nlen = len(cells)
         if k == "g":
@@ -951,14 +979,18 @@ def tie(ctx):
         if real_s != model:
             ctx.broke(f"correspondence: extracted op list vs Lean model on `{line}` (real={real_s} model={model})")
 
-    # borrowing call through the extracted op list
+
+def _sec3(ctx, fixed, corpus):
+    import c19_ssa as S
+    rng = ctx.rng
+    # ---- (3b) borrowing call through the extracted op list
     lines, metas = [], []
     for _ in range(ctx.n(100, 5000)):
         cells = gen_cells(rng, lent_p=0.15)
         i = gen_index(rng, len(cells))
         metas.append((cells, i))
         lines.append(f"(run {_sexp(fixed['inout_linear'])} ((arr {' '.join('_' if c is None else str(c) for c in cells)}) (int {i})))")
-    reps = ctx.driver(DRIVER, lines)
+    reps = yield lines
     for (cells, i), line, model in zip(metas, lines, reps):
         real = py_run(fixed["inout_linear"], [("arr", tuple(cells)), ("int", i)])
         if 0 <= i < len(cells) and cells[i] is not None:
@@ -976,6 +1008,10 @@ def tie(ctx):
         if show_result(real) != model:
             ctx.broke(f"correspondence: Lean vs Python interpretation of the extracted inout op list on {cells_sexp(cells)} i={i}: {model} vs {show_result(real)}")
 
+
+def _sec4(ctx, fixed, corpus):
+    import c19_ssa as S
+    rng = ctx.rng
     # ---- (4) T-exec: ArrayIter.__next__ from /repo under CPython
     try:
         rn = RealNext(ctx)
@@ -1006,7 +1042,7 @@ def tie(ctx):
         xs = [rng.randrange(0, 100) for _ in range(rng.choice([0, 1, 2, 3, 5, 8]))]
         drains.append((linear, xs))
         lines.append(f"(drain {int(linear)} {cells_sexp(xs)} 0 {len(xs) + 1})")
-    reps = ctx.driver(DRIVER, lines)
+    reps = yield lines
     for (linear, cells, i), line, model in zip(metas, lines, reps):
         real = rn.call(linear, cells, i)
         ctx.count(line, nontrivial=not (0 <= i < len(cells)) or (0 <= i < len(cells) and cells[i] is None),
@@ -1039,6 +1075,10 @@ def tie(ctx):
         if out != model:
             ctx.broke(f"T-exec: draining the real ArrayIter vs Lean `drain` on {xs}: real={out} model={model}")
 
+
+def _sec5(ctx, fixed, corpus):
+    import c19_ssa as S
+    rng = ctx.rng
     # ---- (5) comprehension loop: model vs oracle (the body op list was tied above)
     lines, metas = [], []
     for _ in range(ctx.n(30, 1000)):
@@ -1047,7 +1087,7 @@ def tie(ctx):
         es = [rng.randrange(0, 100) for _ in range(k)]
         metas.append((nlen, es))
         lines.append(f"(comp {nlen} ({' '.join(map(str, es))}))")
-    reps = ctx.driver(DRIVER, lines)
+    reps = yield lines
     body_prog = (3, [("itousize", [], [0], 1), ("return", [], [1, 3, 2], 1), ("const", ["1"], [], 1), ("iadd", [], [0, 5], 1)], [4, 6])
     for (nlen, es), line, model in zip(metas, lines, reps):
         # real: the extracted body (checked equal to body_prog above) folded in Python
